@@ -264,7 +264,7 @@ PROPS = {
     },
     "C02": {
         "modules": ["SxVerif.Props.C02"],
-        "components": ["netparse", "gen", "parse", "e2e", "e2eapp"],
+        "components": ["netparse", "gen", "parse", "e2e", "e2eapp", "e2erefuse"],
         "trusted_base": [
             "modelled, not verified: net.ParseCIDR / netip.ParseAddr for colon-free input (go1.23 parseIPv4Fields, dtoi) as Model/Net.lean; IPv6 parsing is not modelled at all (refused up front by the colon test)",
             "cidranger PCTrie as list membership after To4 normalisation",
@@ -281,7 +281,7 @@ PROPS = {
             "macs.ValidMACPrefixMap (vendor lookup) is opaque",
         ],
         "assumptions": ["a received frame is delivered as a slice whose capacity equals its length (as the harness does; AF_PACKET v3 blocks may be laxer, which can only turn a recovered panic into an error-free decode of bytes of the same ring block)"],
-        "level_text": "Lean theorems C06_step / C06_history / C06_terminates: for every byte string, every prior contents of the reused decoder structs and every sequence of frames, the three processors never reach a panic, emit at most one record per frame, and emit it only if the frame itself contains the flat, offset-defined header chain of Spec/Frame.lean (version 4, IHL/lengths consistent, well-delimited options, unfragmented; ARP 1/0x0800/6/4) with every record field read from that frame. Tied to the code by histories of structurally generated and malformed frames through the real ScanMethod.ProcessPacketData.",
+        "level_text": "Lean theorems C06_step / C06_history / C06_terminates: for every byte string, every prior contents of the reused decoder structs and every sequence of frames, the three processors never reach a panic, emit at most one record per frame, and emit it only if the frame itself contains the flat, offset-defined header chain of Spec/Frame.lean (version 4, IHL/lengths consistent, well-delimited options, unfragmented; ARP 1/0x0800/6/4) with every record field read from that frame. capture_source_safe / vlan_tagged_skipped (regenerated facts): the capture source serialises reads with Close, answers EOF once closed and hands out copies, and skips frames the kernel delivered with a VLAN tag beside them. Tied to the code by histories of structurally generated and malformed frames through the real ScanMethod.ProcessPacketData, and end to end (components e2ereply, e2e) by injecting crafted, nested, VLAN-tagged and badly-timed replies on the wire of the real binary in a network namespace.",
         "level_note": "Trusted: Lean kernel; the gopacket decoder model is validated differentially (1.5k histories quick / 25k thorough), not proved.",
     },
     "C05": {
